@@ -202,7 +202,7 @@ func c16Observe(c *core.Ctx, mask int, other string, want rules.CosmeticOption) 
 				content, rest = content[:at], content[at:]
 				c.Event("file_backed_lists_that_grow_after_they_are_opened", 1)
 			}
-			if os.WriteFile(fn, []byte(content), 0o644) == nil {
+			if os.WriteFile(fn, []byte(util.ChopEOL(content)), 0o644) == nil {
 				if fl, ferr := filterlist.NewFileRuleList(0, fn, false); ferr == nil {
 					if rest != "" {
 						if af, aerr := os.OpenFile(fn, os.O_WRONLY|os.O_APPEND, 0o644); aerr == nil {
